@@ -21,12 +21,14 @@ def record_worker(seed_, n_schemas, n_values, extra):
         text = ""
         for si in range(n_schemas):
             defs = gen.gen_env(rnd)
+            if si % 3 == 2:
+                gen.assign_shifts(rnd, defs)      # bound shifts: the hand-written-codec feature
             names = ["S%d_%d_T%d" % (seed_, si, i + 1) for i in range(len(defs))]
             env = S.Env(defs, names=names)
             envs.append(env)
             text += env.render() + "\n"
         try:
-            mod, _ = P.compile_python(text, work, "t")
+            mod, _ = P.compile_python(text, work, "t", shift_envs=envs)
             mods = [mod] * len(envs)
         except P.CompileFailure:
             mods = []
@@ -34,7 +36,7 @@ def record_worker(seed_, n_schemas, n_values, extra):
                 sub = os.path.join(work, "s%d" % si)
                 os.mkdir(sub)
                 try:
-                    m, _ = P.compile_python(env.render(), sub, "t")
+                    m, _ = P.compile_python(env.render(), sub, "t", shift_envs=[env])
                     mods.append(m)
                 except P.CompileFailure as e:
                     mods.append(None)
@@ -124,12 +126,14 @@ def decode_worker(seed_, n_schemas, n_values, n_mut, extra):
     try:
         for si in range(n_schemas):
             defs = gen.gen_env(rnd)
+            if si % 3 == 2:
+                gen.assign_shifts(rnd, defs)
             names = ["D%d_%d_T%d" % (seed_, si, i + 1) for i in range(len(defs))]
             env = S.Env(defs, names=names)
             sub = os.path.join(work, "s%d" % si)
             os.mkdir(sub)
             try:
-                mod, _ = P.compile_python(env.render(), sub, "t")
+                mod, _ = P.compile_python(env.render(), sub, "t", shift_envs=[env])
             except P.CompileFailure as e:
                 out["fails"].append({"check": "accept", "what": "schema not realised by prophyc/python: %s" % e,
                                      "schema": env.render(), "defs": env.defs})
